@@ -47,6 +47,9 @@ WRAPS = [
     "zz_d = {\n    'password': 'hunter2',\n    'k': {c},\n}",
     "assert {c}, 'message'",
     "zz_lam = lambda: {c}",
+    "def zz_k(zz_a,\n         zz_b='0.0.0.0',\n         *zz_rest,\n         zz_bind='0.0.0.0',\n         password='hunter2',\n         **zz_kw):\n    {c}",
+    "async def zz_ak(zz_a, /,\n                zz_b='x',\n                *,\n                zz_tmp='/tmp/zz_k'):\n    {c}",
+    "zz_lk = lambda zz_a, zz_b='0.0.0.0', *, zz_c='/tmp/zz_l': {c}",
     "@'0.0.0.0'\ndef zz_ds():\n    {c}",
 ]
 
